@@ -221,12 +221,14 @@ def run(prog: Program, L: Ledger) -> None:
     if _persistent_buffer_idiom(L, att, abody, alp, rel, att0):
         abody = None
     T = RowTracker(None, where="attempt_displacement")
+    T.sum_operands = {"context.atoms.positions", "context.atoms.get_positions()"}  # `buf = buf + positions` forms the new positions; any other `buf = buf op e` is an update of the buffer
     for s_ in (abody[: abody.index(alp)] if abody is not None else []):
         if isinstance(s_, (ast.Assign, ast.AnnAssign)):
             T.stmt(s_)
         elif not (isinstance(s_, ast.Expr) and isinstance(s_.value, ast.Constant)):
             raise AnalysisError(f"attempt_displacement: statement `{norm(s_)[:60]}` before the retry loop is outside the recognised fragment")
     outside = set(T.objs)
+    outside_ids = {id(o_) for o_ in T.objs.values()}  # the arrays that exist before the retry loop (a name may be re-bound to a new one inside it)
     spc = None
     for s_ in (alp.body if abody is not None else []):
         cs = [c for c in (calls_in(s_) if not isinstance(s_, (ast.If, ast.For, ast.While)) else calls_in(ast.Expr(value=s_.test)) if isinstance(s_, ast.If) else [])
@@ -258,7 +260,7 @@ def run(prog: Program, L: Ledger) -> None:
         if zobj is not None:
             shp = norm(zobj.shape).replace(" ", "") if zobj.shape is not None else ""
             zero = zobj.kind == "array" and zobj.fill in ("0", "0.0") and (shp == "(len(context.atoms),3)" or (zobj.like is not None and norm(zobj.like) in live))
-            fresh = not any(T.objs.get(n) is zobj for n in outside)
+            fresh = id(zobj) not in outside_ids
             L.check(zero and fresh, "D1", "attempt_displacement:zeros", f"{rel}:{getattr(zobj.node, 'lineno', att0.node.lineno)}",
                     f"translation array `{norm(zobj.node)[:80]}` is not a zero array of shape (len(atoms), 3) allocated afresh for every attempt" + ("" if fresh else " (allocated once, before the retry loop)"),
                     "unselected atoms receive a non-zero translation (stale values from a previous attempt or a non-zero fill)", "zeros")
@@ -395,11 +397,36 @@ def run(prog: Program, L: Ledger) -> None:
     lp = loops[0]
     mv = norm(lp.target)
     linl = Inliner(cc.node)
-    cand = [n for n in walk_no_nested(lp) if isinstance(n, ast.Assign) and isinstance(n.value, ast.Call) and norm(n.value.func) in ("np.setdiff1d", "numpy.setdiff1d")]
+    def _as_setdiff(v):
+        """`np.setdiff1d(C, T)` — or its spelled-out form `C[np.isin(C, T, invert=True)]` / `C[~np.isin(C, T)]` (what numpy's
+        setdiff1d does for unique inputs) — as a (C, T) call-like pair; None otherwise"""
+        v = linl.inline(v)
+        if isinstance(v, ast.Call) and norm(v.func) in ("np.setdiff1d", "numpy.setdiff1d") and len(v.args) >= 2:
+            return v
+        if isinstance(v, ast.Subscript):
+            m_ = linl.inline(v.slice)
+            inv = False
+            if isinstance(m_, ast.UnaryOp) and isinstance(m_.op, ast.Invert):
+                m_, inv = linl.inline(m_.operand), True
+            if isinstance(m_, ast.Call) and norm(m_.func) in ("np.isin", "numpy.isin", "np.in1d") and len(m_.args) >= 2:
+                inv = inv != any(k.arg == "invert" and isinstance(k.value, ast.Constant) and k.value.value is True for k in m_.keywords)
+                strip = lambda e_: (strip(e_.func.value) if isinstance(e_, ast.Call) and isinstance(e_.func, ast.Attribute) and e_.func.attr in ("ravel", "flatten", "copy") and not e_.args else e_)  # noqa: E731
+                base_, arg0_ = strip(linl.inline(v.value)), strip(linl.inline(m_.args[0]))
+                if inv and norm(base_) == norm(arg0_):
+                    return ast.Call(func=ast.Name(id="np.setdiff1d", ctx=ast.Load()), args=[base_, m_.args[1]], keywords=[])
+        return None
+
+    cand = [n for n in walk_no_nested(lp) if isinstance(n, ast.Assign) and isinstance(n.targets[0], ast.Name) and _as_setdiff(n.value) is not None
+            and not any(isinstance(n2, ast.Assign) and n2 is not n and isinstance(n2.value, ast.Name) and n2.value.id == n.targets[0].id and False for n2 in ())]
+    # the inliner may see the same construct through a local and its use: keep the outermost definition (the one whose name
+    # the choice draws from)
+    if len(cand) > 1:
+        used = {x.id for c_ in calls_in(lp) if isinstance(c_.func, ast.Attribute) and c_.func.attr == "choice" for a_ in c_.args[:1] for x in ast.walk(a_) if isinstance(x, ast.Name)}
+        cand = [n for n in cand if n.targets[0].id in used] or cand[-1:]
     okc = False
     aliases: set[str] = set()
     if len(cand) == 1 and isinstance(cand[0].targets[0], ast.Name):
-        c = cand[0].value
+        c = _as_setdiff(cand[0].value)
         aliases = {cand[0].targets[0].id}
         grew = True
         while grew:
@@ -410,6 +437,9 @@ def run(prog: Program, L: Ledger) -> None:
                     grew = True
         a0 = norm(c.args[0])
         src = linl.inline(c.args[1]) if len(c.args) > 1 else None
+        if isinstance(src, ast.Call) and isinstance(src.func, ast.Name) and src.func.id in ("tuple", "list") and len(src.args) == 1 and isinstance(src.args[0], (ast.GeneratorExp, ast.ListComp)):
+            g_ = src.args[0]
+            src = ast.copy_location(ast.ListComp(elt=g_.elt, generators=g_.generators), src)
         # second argument: the non-None entries of self.displaced_labels
         ok_second = isinstance(src, ast.ListComp) and len(src.generators) == 1 and norm(src.generators[0].iter) == "self.displaced_labels" and len(src.generators[0].ifs) == 1 \
             and norm(src.generators[0].ifs[0]) == f"{norm(src.generators[0].target)} is not None" and norm(src.elt) == norm(src.generators[0].target)
